@@ -9,15 +9,18 @@
 EXTENDS OperatorSeq, Json, IOUtils, SequencesExt
 CONSTANT MaxLen
 
+\* snapshot names in non-alphabetical order of position (so that "listed as given" is distinguishable
+\* from "listed sorted")
+SnapName(pos) == <<"e", "d", "c", "b", "a">>[pos]
 Kind(k, pos) ==
   CASE k = 1 -> [k |-> "single"]
     [] k = 2 -> [k |-> "single", thr |-> 2]
     [] k = 3 -> [k |-> "multi", p |-> 4]
     [] k = 4 -> [k |-> "pflood"]
     [] k = 5 -> [k |-> "mst", m |-> "kruskal", r |-> "carve"]
-    [] k = 6 -> [k |-> "snap", name |-> ToString(pos), sg |-> 1, se |-> 0]
-    [] k = 7 -> [k |-> "snap", name |-> ToString(pos), sg |-> 0, se |-> 1]
-    [] k = 8 -> [k |-> "snap", name |-> ToString(pos), sg |-> 1, se |-> 1]
+    [] k = 6 -> [k |-> "snap", name |-> SnapName(pos), sg |-> 1, se |-> 0]
+    [] k = 7 -> [k |-> "snap", name |-> SnapName(pos), sg |-> 0, se |-> 1]
+    [] k = 8 -> [k |-> "snap", name |-> SnapName(pos), sg |-> 1, se |-> 1]
 Codes == UNION {[1..n -> 1..8] : n \in 1..MaxLen}
 OpsOf(c) == [i \in DOMAIN c |-> Kind(c[i], i)]
 AllRefine == \A c \in Codes : AddRefinesValid(OpsOf(c))
